@@ -498,6 +498,41 @@ def main(tier):
                     break
     chk.evaluations += hist_n
     chk.extra["render_change_render_histories"] = hist_n
+    # 3c. user-defined subclasses of the node classes (a class statement that only adds a method / a repr): a node of a derived
+    #     class is rendered as the kind it is, exactly like a node of the base class with the same fields
+    import dataclasses
+
+    from predicate.all_predicate import AllPredicate as _All
+    from predicate.any_predicate import AnyPredicate as _Any
+    from predicate.predicate import AndPredicate as _And, FnPredicate as _Fn, NePredicate as _Ne, NotPredicate as _Not, OrPredicate as _Or, XorPredicate as _Xor
+
+    def _sub(base):
+        return dataclasses.dataclass(type("My" + base.__name__, (base,), {"extra": lambda self: 1, "__repr__": lambda self: "mine"}))
+
+    SUB = {b: _sub(b) for b in (_And, _Or, _Xor, _Not, _All, _Any, _Ne, NamedPredicate, _Fn)}
+    va, vb = NamedPredicate(name="a"), NamedPredicate(name="b")
+
+    def _fn(x):
+        return True
+
+    pairs = [
+        (SUB[_And](left=va, right=vb), _And(left=va, right=vb)), (SUB[_Or](left=va, right=vb), _Or(left=va, right=vb)), (SUB[_Xor](left=va, right=vb), _Xor(left=va, right=vb)),
+        (SUB[_Not](predicate=va), _Not(predicate=va)), (SUB[_All](predicate=va), _All(predicate=va)), (SUB[_Any](predicate=va), _Any(predicate=va)),
+        (SUB[_Ne](v=3), _Ne(v=3)), (SUB[NamedPredicate](name="zz"), NamedPredicate(name="zz")), (SUB[_Fn](predicate_fn=_fn), _Fn(predicate_fn=_fn)),
+        (_Or(left=SUB[_And](left=va, right=SUB[_Not](predicate=vb)), right=vb), _Or(left=_And(left=va, right=_Not(predicate=vb)), right=vb)),
+        (SUB[_Not](predicate=SUB[_Xor](left=SUB[_Ne](v=1), right=va)), _Not(predicate=_Xor(left=_Ne(v=1), right=va))),
+    ]
+    for k, (mine, base) in enumerate(pairs):
+        try:
+            got = to_json(mine)
+        except Exception as e:  # noqa: BLE001
+            chk.add_failure({"history": f"to_json of a tree with user subclasses of the node classes (case {k}: {type(mine).__name__})"}, {"what": f"to_json raised {type(e).__name__}: {e}"[:200]}, None)
+            continue
+        want = to_json(base)
+        if got != want:
+            chk.add_failure({"history": f"to_json of a tree with user subclasses of the node classes (case {k}: {type(mine).__name__})"}, {"what": "a node of a derived class is not rendered like a node of its base class", "got": repr(got)[:200], "base": repr(want)[:200]}, None)
+    chk.evaluations += len(pairs)
+    chk.extra["user_subclass_cases"] = len(pairs)
     # 4. the json command of main.py (an anchor of C18): what it prints is the JSON of the tree it parsed, for every expression,
     #    constants at the root included (judged by C20's reference reader, no model involved)
     from . import c20
